@@ -5,73 +5,82 @@ from . import rt, scenario as S
 from .rt import Out
 
 
+class Concretizer:
+    """z3 model -> concrete strings, with one naming shared by all scenarios built from it"""
+
+    def __init__(self, z, uni, model):
+        self.z = z
+        self.uni = uni
+        self.model = model
+        self.val_name = {}
+        self.cls_name = {}
+        self.lit_of_val = {}
+        for t, c in list(z.terms.items()):
+            if t[0] == 'lit':
+                self.lit_of_val[str(model.eval(c, model_completion=True))] = t[1]
+
+    def bval(self, atom):
+        if atom is True:
+            return True
+        if atom is False:
+            return False
+        v = self.model.eval(self.z.formula(atom), model_completion=True)
+        return z3.is_true(v)
+
+    def sval(self, term):
+        z = self.z
+        model = self.model
+        c = z.term(term)
+        mv = str(model.eval(c, model_completion=True))
+        if mv in self.lit_of_val:
+            return self.lit_of_val[mv]
+        if mv not in self.val_name:
+            cv = str(model.eval(z.cls(c), model_completion=True))
+            if cv not in self.cls_name:
+                self.cls_name[cv] = 'c%d' % len(self.cls_name)
+            self.val_name[mv] = '%s.t%d' % (self.cls_name[cv], len(self.val_name))
+        return self.val_name[mv]
+
+    def scenario(self, uni, path, name, output_term=None):
+        """uni: the universe whose declaration order / specs to use; path: [(action, result)]"""
+        hist = {}
+        for k, (v, p) in uni.hist_spec.items():
+            if self.bval(p):
+                hist[k] = self.sval(rt.term_of(v)) if type(v) is Out else v
+        present = [j for j, p in uni.present_spec.items() if self.bval(p)]
+        events = []
+        for action, result in path:
+            if action[0] == 'ok':
+                t = output_term(action[1]) if output_term else ('o', action[1])
+                events.append(('ok', action[1], self.sval(t)))
+            else:
+                events.append(tuple(action))
+        classes = {}
+        if uni.mode != 'ident':
+            allvals = set(hist.values()) | set(e[2] for e in events if e[0] == 'ok')
+            for v in allvals:
+                if '.t' in v and v.startswith('c'):
+                    classes[v] = v.split('.t')[0]
+            for t, c in list(self.z.terms.items()):
+                if t[0] == 'lit' and t[1] in allvals:
+                    cv = str(self.model.eval(self.z.cls(c), model_completion=True))
+                    if cv in self.cls_name:
+                        classes[t[1]] = self.cls_name[cv]
+        return S.Scenario(name, uni.mode, hist, present, classes, dict(uni.inputs), uni.nodes, uni.edges, events)
+
+
 def concretize(ex, viol):
     """returns Scenario for the violating path (single evaluation from a concrete history)"""
     st = viol.state
     z = ex.z
-    uni = ex.uni
     pc = list(st.pc.items()) + list(viol.extra_pc or [])
     model = viol.model
     if model is None or viol.extra_pc:
         model = z.model_for(frozenset(pc))
     if model is None:
         raise rt.Unsupported('no model for counterexample path condition')
-
-    def bval(atom, default=False):
-        if atom is True:
-            return True
-        v = model.eval(z.formula(atom), model_completion=True)
-        return z3.is_true(v)
-
-    # ---- group terms by model value; literals keep their text
-    val_name = {}
-    cls_name = {}
-    lit_of_val = {}
-    for t, c in list(z.terms.items()):
-        if t[0] == 'lit':
-            lit_of_val[str(model.eval(c, model_completion=True))] = t[1]
-
-    def sval(term):
-        c = z.term(term)
-        mv = str(model.eval(c, model_completion=True))
-        if mv in lit_of_val:
-            return lit_of_val[mv]
-        if mv not in val_name:
-            cv = str(model.eval(z.cls(c), model_completion=True))
-            if cv not in cls_name:
-                cls_name[cv] = 'c%d' % len(cls_name)
-            val_name[mv] = '%s.t%d' % (cls_name[cv], len(val_name))
-        return val_name[mv]
-
-    hist = {}
-    for k, (v, p) in uni.hist_spec.items():
-        if bval(p):
-            hist[k] = sval(rt.term_of(v)) if type(v) is Out else v
-    present = [j for j, p in uni.present_spec.items() if bval(p)]
-    events = []
-    for action, result in st.path():
-        if action[0] == 'ok':
-            events.append(('ok', action[1], sval(ex.output_term(None, action[1]))))
-        else:
-            events.append(tuple(action))
-    classes = {}
-    if uni.mode != 'ident':
-        # class of every concrete value used: literals get the class of their model value
-        allvals = set(hist.values()) | set(e[2] for e in events if e[0] == 'ok')
-        for t, c in list(z.terms.items()):
-            pass
-        for v in allvals:
-            if '.t' in v and v.startswith('c'):
-                classes[v] = v.split('.t')[0]
-        # literals: class by model
-        for t, c in list(z.terms.items()):
-            if t[0] == 'lit' and t[1] in allvals:
-                cv = str(model.eval(z.cls(c), model_completion=True))
-                if cv in cls_name:
-                    classes[t[1]] = cls_name[cv]
-    mode = uni.mode
-    sc = S.Scenario('cex_%s' % viol.prop, mode, hist, present, classes, dict(uni.inputs), uni.nodes, uni.edges, events)
-    return sc
+    c = Concretizer(z, ex.uni, model)
+    return c.scenario(ex.uni, st.path(), 'cex_%s' % viol.prop, output_term=lambda j: ex.output_term(None, j))
 
 
 def describe(ex, viol):
